@@ -193,6 +193,10 @@ def chan_mc(rep, tier, kinds=("q", "rv", "os")):
     for k in kinds:
         cfg = "MC_ChanA_%s%s.cfg" % (k, "_quick" if tier == "quick" else "")
         add_mc(rep, mc_cached("chan", "MC_ChanA", cfg, deps))
+    if "q" in kinds:
+        # Layer P of the bounded mpsc credit-before-claim protocol (claim / overshoot tombstone / wake pairing)
+        add_mc(rep, mc_cached("chan", "MpscBoundedP", "MC_MpscP.cfg", [], workers=2))
+        add_mc(rep, mc_cached("chan", "MpscBoundedP", "MC_MpscP_k2.cfg", [], workers=4))
     if "rv" in kinds:
         # Layer P of the rendezvous hand-off / cancellation protocol (as fixed by 6a381f1)
         add_mc(rep, mc_cached("chan", "RendezvousP", "RendezvousP_fixed.cfg", [], workers=2))
@@ -250,10 +254,14 @@ def C05(rep):
 
 
 def C02(rep):
-    chan_mc(rep, rep.tier)
+    chan_mc(rep, rep.tier, kinds=("q", "rv", "os", "bc"))
     # long programs force ring wrap, chunk reuse and slab recycling
     chan_seq(rep, [f for f in ALL_PLUS if "rv" not in f and f != "oneshot"], n(rep.tier, 12, 120), 400, [1, 3, 5, 7],
              ["batch", "mix"], seed_off=101, label="chan-seq-long")
+    # order under contention: two producers / two broadcast readers, systematic schedules
+    t = rep.tier
+    chan_sys(rep, ["spmc_b", "spmc_b_async"], 3, n(t, 12, 14), caps=(1, 2), producers=1, consumers=2, items=2, label="chan-sys-spmc")
+    chan_sys(rep, ["mpsc_b", "mpmc_b", "mpsc_u", "mpmc_u"], 3, 8, caps=(2,), items=2, seeds=n(t, (1,), (1, 2, 3)), label="chan-sys-order")
     rep.assumptions += CHAN_ASSUME
 
 
